@@ -26,9 +26,29 @@ VERUS = [dict(
                 length"""),
     ],
 )]
+FW = "datafusion/physical-expr/src/window/window_expr.rs"
+VERUS.append(dict(
+    name="groups_end_bound_safe",
+    uses="use vstd::prelude::*;\nuse std::collections::VecDeque;\n",
+    prelude="prelude_groups.rs", proofs="proofs_groups.rs", witness="witness_groups.rs", rlimit=30, min_verified=2, twins=[],
+    items=[
+        dict(file=F, path=["struct WindowFrameStateGroups"]),
+        dict(file=FW, path=["fn is_end_bound_safe_for_groups"], ret="res",
+             contract="""    requires wf_groups(*state),
+    ensures
+        // (memory- and overflow-safety for every u64 offset is the obligation here; functionally:)
+        // an end bound `n FOLLOWING` can only be final when exactly n + 1 groups lie at or after the current one
+        (end_bound matches WindowFrameBound::Following(ScalarValue::UInt64(Some(n))) &&
+            state.group_end_indices@.len() - state.current_group_idx != n + 1) ==> res == Ok::<bool, DataFusionError>(false),
+        (end_bound matches WindowFrameBound::Following(ScalarValue::UInt64(None))) ==> res == Ok::<bool, DataFusionError>(false),"""),
+    ],
+    mutants=[
+        dict(name="delta_off_by_one", item="is_end_bound_safe_for_groups", find=".checked_add(1)", replace=".checked_add(2)"),
+    ],
+))
 KANI = []
 TRUSTED = ["Verus 0.2026.09.13 + bundled Z3", "global size_of usize == 8", "type model of ScalarValue/WindowFrameBound restricted to the variants the function matches on",
            "rewrites R9 (error macros -> opaque error), R11 (std::cmp::min -> verified min_usize)"]
 ASSUMPTIONS = ["precondition idx < length (callers iterate idx over 0..length)", "error content (message text) not verified"]
-NOT_COVERED = ["RANGE and GROUPS frames (Arrow comparisons through search_in_slice)", "window function evaluators, sliding retraction, executors"]
+NOT_COVERED = ["RANGE frames and WindowFrameStateGroups::calculate_index_of_row (VecDeque::back_mut with &mut tuple patterns: outside the Verus subset; matching on WindowFrameBound makes kani-compiler 0.68 panic at rvalue.rs:1009)", "window function evaluators, sliding retraction, executors"]
 EXPLANATION = "ROWS frame bounds proved equal to the mathematical frame definition for every u64 offset, every idx < length, with no arithmetic overflow."
